@@ -533,7 +533,7 @@ theorem gstep_stepClient (g : GSys) (i : Nat) (b : Bool)
         | insRemove id =>
           have : (g.stepClient i b).1 =
             { g with sys := { g.sys with store := g.sys.store.insRemoveBatch id, clients := g.sys.clients.set i { op := .insRemove id, pc := .done .unit, started := true, dead := b, arrival := g.sys.clock, popped := popped } } } := by
-            simp only [GSys.stepClient, h1, QSys.enqDelta, QSys.popDelta, hcur, List.append_nil, qstep, QClient.cmdClock,
+            simp only [GSys.stepClient, h1, QSys.enqDelta, QSys.popDelta, hcur, List.append_nil, qstep,
               QClient.before, List.filterMap_nil]
             rfl
           rw [this]
@@ -669,5 +669,500 @@ theorem GSys.run_induction (Inv : GSys → Prop) (ok : Int → Prop)
   | cons e es ih =>
     exact ih (g.step e) (fun e' he' => he e' (List.mem_cons_of_mem _ he'))
       (GSys.step_induction Inv ok hok hstep htick g e (he e (List.mem_cons_self)) h)
+
+open RStore
+
+/-! ## accounting of the ghost pop log -/
+
+/-- what consumer `i` has been handed for its batch so far, according to the ghost log -/
+def retOf (i : Nat) (pops : List GPop) : List Probe :=
+  (pops.filter fun d => d.client == i && d.returned).map (·.probe)
+
+/-- how many entries consumer `i` has dropped as expired so far, according to the ghost log -/
+def expOf (i : Nat) (pops : List GPop) : Nat :=
+  (pops.filter fun d => d.client == i && !d.returned).length
+
+/-- everything consumer `i` took out of the store -/
+def poppedOf (i : Nat) (pops : List GPop) : List (Probe × GoTime) :=
+  (pops.filter fun d => d.client == i).map fun d => (d.probe, d.expires)
+
+theorem retOf_append (i : Nat) (a b : List GPop) : retOf i (a ++ b) = retOf i a ++ retOf i b := by
+  simp [retOf]
+theorem expOf_append (i : Nat) (a b : List GPop) : expOf i (a ++ b) = expOf i a + expOf i b := by
+  simp [expOf]
+theorem poppedOf_append (i : Nat) (a b : List GPop) : poppedOf i (a ++ b) = poppedOf i a ++ poppedOf i b := by
+  simp [poppedOf]
+
+theorem filter_client_eq_nil {j : Nat} {l : List GPop} (h : ∀ d ∈ l, d.client ≠ j) (p : GPop → Bool) :
+    (l.filter fun d => d.client == j && p d) = [] := by
+  rw [List.filter_eq_nil_iff]
+  intro d hd
+  simp [h d hd]
+
+theorem retOf_other {j : Nat} {l : List GPop} (h : ∀ d ∈ l, d.client ≠ j) : retOf j l = [] := by
+  unfold retOf; rw [filter_client_eq_nil h]; rfl
+theorem expOf_other {j : Nat} {l : List GPop} (h : ∀ d ∈ l, d.client ≠ j) : expOf j l = 0 := by
+  unfold expOf; rw [filter_client_eq_nil h]; rfl
+theorem poppedOf_other {j : Nat} {l : List GPop} (h : ∀ d ∈ l, d.client ≠ j) : poppedOf j l = [] := by
+  unfold poppedOf
+  have := filter_client_eq_nil h (fun _ => true)
+  simp only [Bool.and_true] at this
+  rw [this]; rfl
+
+theorem mem_popRecs {s : QSys} {i : Nat} {ids : List Nat} {d : GPop} :
+    d ∈ s.popRecs i ids ↔ ∃ id ∈ ids, ∃ pe, s.store.pItems[id]? = some pe ∧
+      d = ⟨id, i, pe.1, pe.2, s.store.pQueue[id]?, s.clock, !expiredAt pe.2 s.clock⟩ := by
+  unfold QSys.popRecs
+  simp only [List.mem_filterMap, Option.map_eq_some_iff]
+  constructor
+  · rintro ⟨id, hid, pe, hpe, rfl⟩; exact ⟨id, hid, pe, hpe, rfl⟩
+  · rintro ⟨id, hid, pe, hpe, rfl⟩; exact ⟨id, hid, pe, hpe, rfl⟩
+
+theorem popRecs_client {s : QSys} {i : Nat} {ids : List Nat} {d : GPop} (h : d ∈ s.popRecs i ids) : d.client = i := by
+  obtain ⟨id, _, pe, _, rfl⟩ := mem_popRecs.1 h; rfl
+
+theorem popRecs_cons (s : QSys) (i : Nat) (id : Nat) (ids : List Nat) :
+    s.popRecs i (id :: ids) =
+      (match s.store.pItems[id]? with
+       | some pe => [⟨id, i, pe.1, pe.2, s.store.pQueue[id]?, s.clock, !expiredAt pe.2 s.clock⟩]
+       | none => []) ++ s.popRecs i ids := by
+  unfold QSys.popRecs
+  rw [List.filterMap_cons]
+  cases s.store.pItems[id]? <;> rfl
+
+theorem popRecs_ids (s : QSys) (i : Nat) (ids : List Nat) :
+    (s.popRecs i ids).map (·.id) = ids.filter fun id => (s.store.pItems[id]?).isSome := by
+  induction ids with
+  | nil => rfl
+  | cons id ids ih =>
+    rw [popRecs_cons, List.map_append, ih, List.filter_cons]
+    cases s.store.pItems[id]? <;> simp
+
+theorem poppedOf_popRecs (s : QSys) (i : Nat) (ids : List Nat) :
+    poppedOf i (s.popRecs i ids) = ids.filterMap fun id => s.store.pItems[id]? := by
+  induction ids with
+  | nil => rfl
+  | cons id ids ih =>
+    rw [popRecs_cons, poppedOf_append, ih, List.filterMap_cons]
+    cases s.store.pItems[id]? <;> simp [poppedOf]
+
+theorem retOf_popRecs (s : QSys) (i : Nat) (ids : List Nat) :
+    retOf i (s.popRecs i ids) =
+      ((ids.filterMap fun id => s.store.pItems[id]?).filter fun pe => !expiredAt pe.2 s.clock).map (·.1) := by
+  induction ids with
+  | nil => rfl
+  | cons id ids ih =>
+    rw [popRecs_cons, retOf_append, ih, List.filterMap_cons]
+    cases s.store.pItems[id]? with
+    | none => simp [retOf]
+    | some pe =>
+      simp only [retOf, List.filter_cons]
+      cases expiredAt pe.2 s.clock <;> simp
+
+theorem expOf_popRecs (s : QSys) (i : Nat) (ids : List Nat) :
+    expOf i (s.popRecs i ids) =
+      (ids.filterMap fun id => s.store.pItems[id]?).length -
+        ((ids.filterMap fun id => s.store.pItems[id]?).filter fun pe => !expiredAt pe.2 s.clock).length := by
+  induction ids with
+  | nil => rfl
+  | cons id ids ih =>
+    rw [popRecs_cons, expOf_append, ih, List.filterMap_cons]
+    have hle := List.length_filter_le (fun pe : Probe × GoTime => !expiredAt pe.2 s.clock) (ids.filterMap fun id => s.store.pItems[id]?)
+    cases s.store.pItems[id]? with
+    | none => simp [expOf]
+    | some pe =>
+      simp only [expOf, List.filter_cons]
+      cases expiredAt pe.2 s.clock <;> simp <;> omega
+
+/-! ## the invariant -/
+
+/-- the pc of a started call agrees with the ghost log: a `PopMany n` call holds exactly the probes the log says it
+was handed, has counted exactly the expired ones, and never exceeds `n`; other calls are never at a pop pc -/
+def PcOK (op : QOp) (pc : QPC) (ret : List Probe) (exp : Nat) : Prop :=
+  match op with
+  | .popMany n =>
+    (match pc with
+     | .popRange got e => got = ret ∧ e = exp ∧ got.length < n.toNat
+     | .popExec got e ids => got = ret ∧ e = exp ∧ ids.Nodup ∧ got.length + ids.length ≤ n.toNat
+     | .done (.probes got e) => got = ret ∧ e = exp ∧ got.length ≤ n.toNat
+     | _ => False)
+  | _ => (match pc with | .popRange .. => False | .popExec .. => False | _ => True)
+
+theorem PcOK.okFor {op : QOp} {pc : QPC} {ret : List Probe} {exp : Nat} (h : PcOK op pc ret exp) : okFor op pc := by
+  cases op with
+  | popMany n =>
+    cases pc with
+    | done r => cases r <;> first | exact h | trivial
+    | start => exact h
+    | clearExec _ => exact h
+    | _ => trivial
+  | _ => cases pc <;> first | exact h | trivial
+
+theorem PcOK_begin (op : QOp) : PcOK op op.begin [] 0 := by
+  cases op with
+  | enqueue p a b => cases a <;> cases b <;> simp only [QOp.begin] <;> (try split) <;> simp [PcOK]
+  | popMany n =>
+    simp only [QOp.begin]
+    split
+    · simp [PcOK]
+    · simp only [PcOK, List.length_nil, true_and]; omega
+  | _ => simp [QOp.begin, PcOK]
+
+/-- per-client part of the invariant (depends on the ghost pop log only) -/
+structure CInv (pops : List GPop) (i : Nat) (c : QClient) : Prop where
+  popped : c.popped = poppedOf i pops
+  unstarted : c.started = false → ∀ d ∈ pops, d.client ≠ i
+  pc : c.started = true → PcOK c.op c.pc (retOf i pops) (expOf i pops)
+
+theorem CInv.start {pops : List GPop} {i : Nat} {c : QClient} (h : CInv pops i c) (clock : Int) :
+    CInv pops i (c.start clock) := by
+  unfold QClient.start
+  by_cases hs : c.started = true
+  · simp only [hs, if_true]; exact h
+  · have hs' : c.started = false := by simpa using hs
+    simp only [hs']
+    refine ⟨h.popped, fun h' => (by cases h'), fun _ => ?_⟩
+    have := h.unstarted hs'
+    simp only [retOf_other this, expOf_other this]
+    exact PcOK_begin c.op
+
+/-- another client's command appends only records of that client -/
+theorem CInv.frame {pops new : List GPop} {i j : Nat} {c : QClient} (h : CInv pops j c)
+    (hnew : ∀ d ∈ new, d.client = i) (hij : i ≠ j) : CInv (pops ++ new) j c := by
+  have hn : ∀ d ∈ new, d.client ≠ j := fun d hd e => hij ((hnew d hd).symm.trans e)
+  refine ⟨?_, ?_, ?_⟩
+  · rw [poppedOf_append, poppedOf_other hn, List.append_nil]; exact h.popped
+  · intro hs d hd
+    rcases List.mem_append.1 hd with hd | hd
+    · exact h.unstarted hs d hd
+    · exact hn d hd
+  · intro hs
+    rw [retOf_append, retOf_other hn, List.append_nil, expOf_append, expOf_other hn, Nat.add_zero]
+    exact h.pc hs
+
+/-- **the invariant of the ghost system** (no assumption on ticks) -/
+structure GInv (g : GSys) : Prop where
+  cons : Consistent g.sys.store
+  lt : ∀ id : Nat, id ∈ g.sys.store.pItems → id < g.sys.fresh
+  enqLt : ∀ e ∈ g.enqs, e.id < g.sys.fresh
+  enqInc : (g.enqs.map (·.id)).Pairwise (· < ·)
+  cover : ∀ id : Nat, id ∈ g.enqs.map (·.id) ↔ (id ∈ g.sys.store.pQueue ∨ id ∈ g.pops.map (·.id))
+  popNodup : (g.pops.map (·.id)).Nodup
+  popOut : ∀ id : Nat, id ∈ g.pops.map (·.id) → id ∉ g.sys.store.pQueue
+  src : ∀ (id : Nat) (pe : Probe × GoTime) (r : Int), g.sys.store.pItems[id]? = some pe → g.sys.store.pQueue[id]? = some r →
+    ∃ e ∈ g.enqs, e.id = id ∧ e.probe = pe.1 ∧ e.expires = pe.2 ∧ e.ready = r
+  popSrc : ∀ d ∈ g.pops, ∃ e ∈ g.enqs, e.id = d.id ∧ e.probe = d.probe ∧ e.expires = d.expires ∧ d.ready = some e.ready
+  popRet : ∀ d ∈ g.pops, d.returned = !expiredAt d.expires d.clk
+  clients : ∀ (i : Nat) (c : QClient), g.sys.clients[i]? = some c → CInv g.pops i c
+
+theorem GInv.cur {g : GSys} (h : GInv g) {i : Nat} {c : QClient} (hc : g.sys.cur i = some c) : CInv g.pops i c := by
+  obtain ⟨c0, h0, _, rfl⟩ := QSys.cur_some hc
+  exact (h.clients i c0 h0).start _
+
+theorem GInv.okFor {g : GSys} (h : GInv g) (i : Nat) (c : QClient) (hc : g.sys.cur i = some c) : okFor c.op c.pc :=
+  ((h.cur hc).pc (QSys.cur_started hc)).okFor
+
+/-- the clients part after client `i` was replaced by `c'` and `new` (records of client `i`) was appended to the log -/
+theorem clients_set {g : GSys} (h : GInv g) {i : Nat} {c' : QClient} {new : List GPop}
+    (hnew : ∀ d ∈ new, d.client = i) (hc' : CInv (g.pops ++ new) i c') :
+    ∀ (j : Nat) (cj : QClient), (g.sys.clients.set i c')[j]? = some cj → CInv (g.pops ++ new) j cj := by
+  intro j cj hj
+  rw [List.getElem?_set] at hj
+  by_cases hij : i = j
+  · subst hij
+    simp only [if_true] at hj
+    split at hj
+    · cases hj; exact hc'
+    · cases hj
+  · simp only [hij, if_false] at hj
+    exact (h.clients j cj hj).frame hnew hij
+
+theorem GInv.popLt {g : GSys} (h : GInv g) {id : Nat} (hid : id ∈ g.pops.map (·.id)) : id < g.sys.fresh := by
+  have := (h.cover id).2 (Or.inr hid)
+  obtain ⟨e, he, rfl⟩ := List.mem_map.1 this
+  exact h.enqLt e he
+
+theorem GInv.queueLt {g : GSys} (h : GInv g) {id : Nat} (hid : id ∈ g.sys.store.pQueue) : id < g.sys.fresh :=
+  h.lt id ((h.cons.prb id).1 hid)
+
+theorem PcOK_other {op : QOp} {pc : QPC} (ret : List Probe) (exp : Nat) (hnp : ∀ n, op ≠ .popMany n)
+    (h1 : ∀ x y, pc ≠ .popRange x y) (h2 : ∀ x y z, pc ≠ .popExec x y z) : PcOK op pc ret exp := by
+  cases op with
+  | popMany n => exact absurd rfl (hnp n)
+  | _ =>
+    cases pc with
+    | popRange x y => exact absurd rfl (h1 x y)
+    | popExec x y z => exact absurd rfl (h2 x y z)
+    | _ => trivial
+
+theorem CInv.ofStarted {pops : List GPop} {i : Nat} {c : QClient} (hst : c.started = true)
+    (hpop : c.popped = poppedOf i pops) (hpc : PcOK c.op c.pc (retOf i pops) (expOf i pops)) : CInv pops i c :=
+  ⟨hpop, fun hs => (by rw [hst] at hs; cases hs), fun _ => hpc⟩
+
+/-- the clients part when the log does not change -/
+theorem clients_set0 {g : GSys} (h : GInv g) {i : Nat} {c' : QClient} (hc' : CInv g.pops i c') :
+    ∀ (j : Nat) (cj : QClient), (g.sys.clients.set i c')[j]? = some cj → CInv g.pops j cj := by
+  have := clients_set h (i := i) (c' := c') (new := []) (by intro d hd; cases hd) (by rw [List.append_nil]; exact hc')
+  simpa using this
+
+theorem GInv.step_setc {g : GSys} (h : GInv g) (i : Nat) (c c' : QClient) (hc : g.sys.cur i = some c) (hop : c'.op = c.op)
+    (hpc : c'.pc = c.pc) (hst : c'.started = true) (hpop : c'.popped = c.popped) :
+    GInv { g with sys := { g.sys with clients := g.sys.clients.set i c' } } := by
+  refine ⟨h.cons, h.lt, h.enqLt, h.enqInc, h.cover, h.popNodup, h.popOut, h.src, h.popSrc, h.popRet, ?_⟩
+  have hci := h.cur hc
+  exact clients_set0 h (CInv.ofStarted hst (by rw [hpop]; exact hci.popped)
+    (by rw [hop, hpc]; exact hci.pc (QSys.cur_started hc)))
+
+theorem GInv.step_other {g : GSys} (h : GInv g) (i : Nat) (c c' : QClient) (st' : RStore) (hc : g.sys.cur i = some c)
+    (hnp : ∀ n, c.op ≠ .popMany n) (hI : st'.pItems = g.sys.store.pItems) (hQ : st'.pQueue = g.sys.store.pQueue)
+    (hcons : Consistent g.sys.store → Consistent st')
+    (hop : c'.op = c.op) (hpc1 : ∀ x y, c'.pc ≠ .popRange x y) (hpc2 : ∀ x y z, c'.pc ≠ .popExec x y z)
+    (hst : c'.started = true) (hpop : c'.popped = c.popped) :
+    GInv { g with sys := { g.sys with store := st', clients := g.sys.clients.set i c' } } := by
+  have hci := h.cur hc
+  refine ⟨hcons h.cons, ?_, h.enqLt, h.enqInc, ?_, h.popNodup, ?_, ?_, h.popSrc, h.popRet, ?_⟩
+  · show ∀ id : Nat, id ∈ st'.pItems → _
+    rw [hI]; exact h.lt
+  · show ∀ id : Nat, _ ↔ (id ∈ st'.pQueue ∨ _)
+    rw [hQ]; exact h.cover
+  · show ∀ id : Nat, _ → id ∉ st'.pQueue
+    rw [hQ]; exact h.popOut
+  · show ∀ (id : Nat) (pe : Probe × GoTime) (r : Int), st'.pItems[id]? = some pe → st'.pQueue[id]? = some r → _
+    rw [hI, hQ]; exact h.src
+  · exact clients_set0 h (CInv.ofStarted hst (by rw [hpop]; exact hci.popped)
+      (PcOK_other _ _ (by rw [hop]; exact hnp) hpc1 hpc2))
+
+theorem GInv.step_range {g : GSys} (h : GInv g) (i : Nat) (c c' : QClient) (n : Int) (got : List Probe) (e : Nat)
+    (hc : g.sys.cur i = some c) (hcop : c.op = .popMany n) (hcpc : c.pc = .popRange got e) (hop : c'.op = c.op)
+    (hpc : c'.pc = (if (zrangeUpTo g.sys.store.pQueue (some c.arrival) (some (n - got.length).toNat)).isEmpty then .done (.probes got e)
+                    else .popExec got e (zrangeUpTo g.sys.store.pQueue (some c.arrival) (some (n - got.length).toNat))))
+    (hst : c'.started = true) (hpop : c'.popped = c.popped) :
+    GInv { g with sys := { g.sys with clients := g.sys.clients.set i c' } } := by
+  refine ⟨h.cons, h.lt, h.enqLt, h.enqInc, h.cover, h.popNodup, h.popOut, h.src, h.popSrc, h.popRet, ?_⟩
+  have hci := h.cur hc
+  have hp := hci.pc (QSys.cur_started hc)
+  rw [hcop, hcpc] at hp
+  obtain ⟨h1, h2, h3⟩ := hp
+  refine clients_set0 h (CInv.ofStarted hst (by rw [hpop]; exact hci.popped) ?_)
+  rw [hop, hcop, hpc]
+  have hlen := zrangeUpTo_length_le g.sys.store.pQueue (some c.arrival) (n - got.length).toNat
+  split
+  · exact ⟨h1, h2, by omega⟩
+  · exact ⟨h1, h2, zrangeUpTo_nodup _ _ _, by omega⟩
+
+theorem GInv.step_enq {g : GSys} (h : GInv g) (i : Nat) (c c' : QClient) (p : Probe) (after before : GoTime)
+    (hc : g.sys.cur i = some c) (hcop : c.op = .enqueue p after before)
+    (hop : c'.op = c.op) (hpc : c'.pc = .done .unit) (hst : c'.started = true) (hpop : c'.popped = c.popped) (ready clk : Int) :
+    GInv { sys := { g.sys with
+                   store := g.sys.store.enqueueBatch g.sys.fresh p before ready
+                   clients := g.sys.clients.set i c'
+                   fresh := g.sys.fresh + 1 }
+           enqs := g.enqs ++ [⟨g.sys.fresh, i, p, before, ready, clk⟩]
+           pops := g.pops } := by
+  have hci := h.cur hc
+  have hnq : g.sys.fresh ∉ g.sys.store.pQueue := fun hm => Nat.lt_irrefl _ (h.queueLt hm)
+  refine ⟨enqueueBatch_consistent h.cons _ _ _ _, ?_, ?_, ?_, ?_, h.popNodup, ?_, ?_, ?_, h.popRet, ?_⟩
+  · intro id hid
+    have : g.sys.fresh = id ∨ id ∈ g.sys.store.pItems := by
+      have hid' : id ∈ g.sys.store.pItems.insert g.sys.fresh (p, before) := hid
+      rw [ExtTreeMap.mem_insert] at hid'
+      simpa using hid'
+    rcases this with rfl | hm
+    · exact Nat.lt_succ_self _
+    · exact Nat.lt_succ_of_lt (h.lt id hm)
+  · intro e he
+    rcases List.mem_append.1 he with he | he
+    · exact Nat.lt_succ_of_lt (h.enqLt e he)
+    · simp only [List.mem_singleton] at he; subst he; exact Nat.lt_succ_self _
+  · show ((g.enqs ++ [_]).map GEnq.id).Pairwise (· < ·)
+    rw [List.map_append, List.pairwise_append]
+    refine ⟨h.enqInc, by simp, ?_⟩
+    intro a ha b hb
+    obtain ⟨e, he, rfl⟩ := List.mem_map.1 ha
+    simp only [List.map_cons, List.map_nil, List.mem_singleton] at hb
+    subst hb
+    exact h.enqLt e he
+  · intro id
+    show id ∈ (g.enqs ++ [_]).map GEnq.id ↔ (id ∈ (g.sys.store.pQueue.insert g.sys.fresh ready) ∨ id ∈ g.pops.map GPop.id)
+    rw [List.map_append, List.mem_append, h.cover id, ExtTreeMap.mem_insert]
+    simp only [List.map_cons, List.map_nil, List.mem_singleton, compare_eq_iff_eq]
+    constructor
+    · rintro ((h1 | h1) | h1)
+      · exact Or.inl (Or.inr h1)
+      · exact Or.inr h1
+      · exact Or.inl (Or.inl h1.symm)
+    · rintro ((h1 | h1) | h1)
+      · exact Or.inr h1.symm
+      · exact Or.inl (Or.inl h1)
+      · exact Or.inl (Or.inr h1)
+  · intro id hid
+    show id ∉ (g.sys.store.pQueue.insert g.sys.fresh ready)
+    rw [ExtTreeMap.mem_insert]
+    simp only [compare_eq_iff_eq]
+    rintro (h1 | h1)
+    · subst h1; exact Nat.lt_irrefl _ (h.popLt hid)
+    · exact h.popOut id hid h1
+  · intro id pe r
+    show (g.sys.store.pItems.insert g.sys.fresh (p, before))[id]? = some pe → (g.sys.store.pQueue.insert g.sys.fresh ready)[id]? = some r → _
+    rw [ExtTreeMap.getElem?_insert, ExtTreeMap.getElem?_insert]
+    by_cases hid : g.sys.fresh = id
+    · subst hid
+      simp only [compare_eq_iff_eq, if_true, Option.some.injEq]
+      rintro rfl rfl
+      exact ⟨_, List.mem_append.2 (Or.inr (List.mem_singleton.2 rfl)), rfl, rfl, rfl, rfl⟩
+    · simp only [compare_eq_iff_eq, hid, if_false]
+      intro h1 h2
+      obtain ⟨e, he, h3⟩ := h.src id pe r h1 h2
+      exact ⟨e, List.mem_append.2 (Or.inl he), h3⟩
+  · intro d hd
+    obtain ⟨e, he, h3⟩ := h.popSrc d hd
+    exact ⟨e, List.mem_append.2 (Or.inl he), h3⟩
+  · exact clients_set0 h (CInv.ofStarted hst (by rw [hpop]; exact hci.popped)
+      (by rw [hop, hcop, hpc]; trivial))
+
+theorem mem_popBatch_pItems {st : RStore} {ids : List Nat} {id : Nat} :
+    id ∈ (st.popBatch ids).1.pItems ↔ id ∉ ids ∧ id ∈ st.pItems := by
+  rw [mem_iff_getElem?_some, mem_iff_getElem?_some, popBatch_pItems]
+  by_cases h : id ∈ ids <;> simp [h]
+
+theorem mem_popBatch_pQueue {st : RStore} {ids : List Nat} {id : Nat} :
+    id ∈ (st.popBatch ids).1.pQueue ↔ id ∉ ids ∧ id ∈ st.pQueue := by
+  rw [mem_iff_getElem?_some, mem_iff_getElem?_some, popBatch_pQueue]
+  by_cases h : id ∈ ids <;> simp [h]
+
+theorem mem_popRecs_ids {s : QSys} {i : Nat} {ids : List Nat} {id : Nat} :
+    id ∈ (s.popRecs i ids).map (·.id) ↔ id ∈ ids ∧ id ∈ s.store.pItems := by
+  rw [popRecs_ids, List.mem_filter, mem_iff_getElem?_some, Option.isSome_iff_exists]
+
+theorem popNext_ok (n : Int) (got : List Probe) (e : Nat) (items : List (Probe × GoTime)) (clock : Int) (k : Nat)
+    (hlen : got.length + k ≤ n.toNat) (hk : items.length ≤ k) :
+    PcOK (.popMany n) (popNext n got e items clock)
+      (got ++ (items.filter fun pe => !expiredAt pe.2 clock).map (·.1))
+      (e + (items.length - (items.filter fun pe => !expiredAt pe.2 clock).length)) := by
+  unfold popNext
+  have hle := List.length_filter_le (fun pe : Probe × GoTime => !expiredAt pe.2 clock) items
+  split
+  · rename_i h
+    have : items = [] := by simpa using h
+    subst this
+    exact ⟨by simp, by simp, by omega⟩
+  · simp only
+    split
+    · rename_i h2; exact ⟨rfl, rfl, h2⟩
+    · refine ⟨rfl, rfl, ?_⟩
+      simp only [List.length_append, List.length_map]; omega
+
+theorem GInv.step_exec {g : GSys} (h : GInv g) (i : Nat) (c c' : QClient) (n : Int) (got : List Probe) (e : Nat) (ids : List Nat)
+    (hc : g.sys.cur i = some c) (hcop : c.op = .popMany n) (hcpc : c.pc = .popExec got e ids) (hop : c'.op = c.op)
+    (hpc : c'.pc = popNext n got e (ids.filterMap fun id => g.sys.store.pItems[id]?) g.sys.clock)
+    (hst : c'.started = true)
+    (hpop : c'.popped = c.popped ++ ids.filterMap fun id => g.sys.store.pItems[id]?) :
+    GInv { sys := { g.sys with store := (g.sys.store.popBatch ids).1, clients := g.sys.clients.set i c' }
+           enqs := g.enqs
+           pops := g.pops ++ g.sys.popRecs i ids } := by
+  have hci := h.cur hc
+  have hp := hci.pc (QSys.cur_started hc)
+  rw [hcop, hcpc] at hp
+  obtain ⟨h1, h2, hnd, hlen⟩ := hp
+  refine ⟨popBatch_consistent h.cons _, ?_, h.enqLt, h.enqInc, ?_, ?_, ?_, ?_, ?_, ?_, ?_⟩
+  · intro id hid
+    exact h.lt id (mem_popBatch_pItems.1 hid).2
+  · intro id
+    show id ∈ g.enqs.map GEnq.id ↔ (id ∈ (g.sys.store.popBatch ids).1.pQueue ∨ id ∈ (g.pops ++ g.sys.popRecs i ids).map GPop.id)
+    rw [h.cover id, mem_popBatch_pQueue, List.map_append, List.mem_append, mem_popRecs_ids, ← h.cons.prb id]
+    by_cases hin : id ∈ ids
+    · simp [hin]; constructor
+      · rintro (h3 | h3); exact Or.inr h3; exact Or.inl h3
+      · rintro (h3 | h3); exact Or.inr h3; exact Or.inl h3
+    · simp [hin]
+  · show ((g.pops ++ g.sys.popRecs i ids).map GPop.id).Nodup
+    rw [List.map_append, List.nodup_append]
+    refine ⟨h.popNodup, ?_, ?_⟩
+    · rw [popRecs_ids]; exact hnd.sublist List.filter_sublist
+    · intro a ha b hb hab
+      subst hab
+      have := (mem_popRecs_ids.1 hb).2
+      exact h.popOut a ha ((h.cons.prb a).2 this)
+  · intro id hid
+    show id ∉ (g.sys.store.popBatch ids).1.pQueue
+    rw [mem_popBatch_pQueue]
+    rintro ⟨h3, h4⟩
+    have hid' : id ∈ (g.pops ++ g.sys.popRecs i ids).map GPop.id := hid
+    rw [List.map_append, List.mem_append] at hid'
+    rcases hid' with h5 | h5
+    · exact h.popOut id h5 h4
+    · exact h3 (mem_popRecs_ids.1 h5).1
+  · intro id pe r
+    show (g.sys.store.popBatch ids).1.pItems[id]? = some pe → (g.sys.store.popBatch ids).1.pQueue[id]? = some r → _
+    rw [popBatch_pItems, popBatch_pQueue]
+    by_cases hin : id ∈ ids
+    · simp [hin]
+    · simp only [hin, if_false]; exact h.src id pe r
+  · intro d hd
+    rcases List.mem_append.1 hd with hd | hd
+    · exact h.popSrc d hd
+    · obtain ⟨id, _, pe, hpe, rfl⟩ := mem_popRecs.1 hd
+      have hq : id ∈ g.sys.store.pQueue := (h.cons.prb id).2 (mem_iff_getElem?_some.2 ⟨pe, hpe⟩)
+      obtain ⟨r, hr⟩ := mem_iff_getElem?_some.1 hq
+      obtain ⟨e, he, h3, h4, h5, h6⟩ := h.src id pe r hpe hr
+      exact ⟨e, he, h3, h4, h5, by simp only [hr, h6]⟩
+  · intro d hd
+    rcases List.mem_append.1 hd with hd | hd
+    · exact h.popRet d hd
+    · obtain ⟨id, _, pe, hpe, rfl⟩ := mem_popRecs.1 hd
+      rfl
+  · refine clients_set h (fun d hd => popRecs_client hd) (CInv.ofStarted hst ?_ ?_)
+    · rw [hpop, poppedOf_append, poppedOf_popRecs, hci.popped]
+    · rw [hop, hcop, hpc, retOf_append, expOf_append, retOf_popRecs, expOf_popRecs, ← h1, ← h2]
+      exact popNext_ok n got e _ _ ids.length hlen (List.length_filterMap_le _ _)
+
+
+theorem GInv.gstep {g g' : GSys} (h : GInv g) (hs : GStep g g') : GInv g' := by
+  cases hs with
+  | same => exact h
+  | setc i c c' hc hop hpc hst harr hpop => exact h.step_setc i c c' hc hop hpc hst hpop
+  | other i c c' st' hc hnp hI hQ hcons hop hpc1 hpc2 hst harr hpop =>
+    exact h.step_other i c c' st' hc hnp hI hQ hcons hop hpc1 hpc2 hst hpop
+  | enq i c c' p after before hc hcop hcpc hop hpc hst harr hpop =>
+    exact h.step_enq i c c' p after before hc hcop hop hpc hst hpop _ _
+  | range i c c' n got e hc hcop hcpc hop hpc hst harr hpop =>
+    exact h.step_range i c c' n got e hc hcop hcpc hop hpc hst hpop
+  | exec i c c' n got e ids hc hcop hcpc hop hpc hst harr hpop =>
+    exact h.step_exec i c c' n got e ids hc hcop hcpc hop hpc hst hpop
+
+theorem GInv.tick {g : GSys} (h : GInv g) (d : Int) : GInv (g.tick d) :=
+  ⟨h.cons, h.lt, h.enqLt, h.enqInc, h.cover, h.popNodup, h.popOut, h.src, h.popSrc, h.popRet, h.clients⟩
+
+/-- `GInv` is inductive: preserved by every event -/
+theorem GInv.step {g : GSys} (h : GInv g) (e : QSysEv) : GInv (g.step e) :=
+  GSys.step_induction GInv (fun _ => True) (fun _ h => h.okFor) (fun _ _ h hs => h.gstep hs) (fun _ d h _ => h.tick d)
+    g e (by cases e <;> trivial) h
+
+theorem GInv.run {g : GSys} (h : GInv g) (es : List QSysEv) : GInv (g.run es) := by
+  induction es generalizing g with
+  | nil => exact h
+  | cons e es ih => exact ih (h.step e)
+
+/-- admissible initial states: a consistent store with an empty probe queue; clients that have not popped anything
+and, when already started, stand at the first command of their call (dead or not, started or not, any arrival clock) -/
+structure QSys.Init (s : QSys) : Prop where
+  cons : Consistent s.store
+  empty : ∀ id : Nat, id ∉ s.store.pItems
+  clients : ∀ c ∈ s.clients, c.popped = [] ∧ (c.started = true → c.pc = c.op.begin)
+
+theorem GInv.init {s : QSys} (h : s.Init) : GInv (GSys.init s) := by
+  have hq : ∀ id : Nat, id ∉ s.store.pQueue := fun id hid => h.empty id ((h.cons.prb id).1 hid)
+  refine ⟨h.cons, fun id hid => absurd hid (h.empty id), fun e he => (by cases he), List.Pairwise.nil, ?_, List.Pairwise.nil,
+    fun id hid => (by cases hid), ?_, fun d hd => (by cases hd), fun d hd => (by cases hd), ?_⟩
+  · intro id
+    show id ∈ [] ↔ (id ∈ s.store.pQueue ∨ id ∈ [])
+    simp [hq id]
+  · intro id pe r hpe
+    exact absurd (mem_iff_getElem?_some.2 ⟨pe, hpe⟩) (h.empty id)
+  · intro i c hc
+    obtain ⟨h1, h2⟩ := h.clients c (List.mem_of_getElem? hc)
+    refine ⟨h1, fun _ d hd => (by cases hd), fun hs => ?_⟩
+    rw [h2 hs]
+    exact PcOK_begin c.op
 
 end Swat4
